@@ -55,7 +55,8 @@ def run(ctx):
     def one(j):
         sc, drv, w, plan, rep = j
         rid = "c18-%s-%s-w%d-r%d" % (sc["id"], drv, w, rep)
-        return evplane.traced_tree_run(binary, sc, drv, rid, {"fsync": "--fsync" in sc["extra"], "reflink": "auto"}, plan=plan, workers=w,
+        rl = sc["extra"][sc["extra"].index("--reflink") + 1] if "--reflink" in sc["extra"] else "auto"
+        return evplane.traced_tree_run(binary, sc, drv, rid, {"fsync": "--fsync" in sc["extra"], "reflink": rl}, plan=plan, workers=w,
                                        extra_strace=None)
     res = runner.pmap(one, jobs)
     verdicts, st = evplane.judge([r[1] for r in res], len(res))
